@@ -174,6 +174,10 @@ FAILING_CORES = [
     "break;",
     "RdV = *RsV;",
     "long xq = 1;",
+    "RdV = OsN;",
+    "if (OsN & 1) { RdV = RsV; }",
+    "G0_NEW = RsV;",
+    "RdV = VsV;",
 ]
 
 PARSE_ERRORS = [
